@@ -30,9 +30,13 @@ fn fmt(u: &StatusUpdate) -> String {
 /// client-supplied updater: records the send order
 struct Recorder {
     log: Mutex<Vec<String>>,
+    slow_size: bool,      // a client that takes its time over a Size update (the sending thread sits in send() meanwhile)
 }
 impl StatusUpdater for Recorder {
     fn send(&self, update: StatusUpdate) -> Result<()> {
+        if self.slow_size {
+            if let StatusUpdate::Size(_) = update { thread::sleep(std::time::Duration::from_millis(15)); }
+        }
         let mut g = self.log.lock().unwrap();
         let s = fmt(&update);
         log9(&format!("{}\n", s));
@@ -92,8 +96,8 @@ pub fn copy_main(args: &[String]) {
     let config = Arc::new(cfg);
     let drv = load_driver(driver, &config).unwrap();
     match upd.as_str() {
-        "rec" => {
-            let rec = Arc::new(Recorder { log: Mutex::new(vec![]) });
+        "rec" | "recslow" => {
+            let rec = Arc::new(Recorder { log: Mutex::new(vec![]), slow_size: upd == "recslow" });
             let stats: Arc<dyn StatusUpdater> = rec.clone();
             let h = thread::spawn(move || drv.copy(sources, &dest, stats));
             let r = h.join();
